@@ -81,6 +81,9 @@ fn read_field<R>(reader: &mut R, dst: &mut Vec<u8>) -> io::Result<(usize, bool)>
 where
     R: BufRead,
 {
+    #[cfg(kani)]
+    use self::verif_kani::memchr2_model as memchr2;
+    #[cfg(not(kani))]
     use memchr::memchr2;
 
     const DELIMITER: u8 = b'\t';
@@ -119,6 +122,10 @@ where
 
     Ok((len, is_eol))
 }
+
+#[cfg(kani)]
+#[path = "/verif/harness/sam/reader_record.rs"]
+mod verif_kani;
 
 #[cfg(test)]
 mod tests {
